@@ -2,6 +2,7 @@ import MwVerif.Model.Sections
 import MwVerif.Lemmas.Lists.Paths
 import MwVerif.Lemmas.Cells.Lossless
 import MwVerif.Model.Rows
+import MwVerif.Lemmas.Tables.Lossless
 /-!
 # C02 — well-formed markup parses to the structure it denotes (section nesting)
 
@@ -225,3 +226,14 @@ example : MwVerif.Cells.cells false [.col (some true), .other 1, .col none, .oth
     = [.cell true [] [.other 1], .cell true [] [.other 2], .cell false [] [.other 3]] := by
   simp [MwVerif.Cells.cells, MwVerif.Cells.mkCell, MwVerif.Cells.afterCell, MwVerif.Cells.inCell, MwVerif.Cells.Tok.isStart,
     MwVerif.Cells.Tok.isEnd, MwVerif.Cells.splitAttrs]
+
+/-- **C02 (pairing of table markers).**  `TableParser.run` pairs `{|`/`<table>` with `|}`/`</table>` like brackets (an end
+marker without an open table stays, tables open at the end are closed there): every other token ends up exactly once, in
+order, inside the tables the markers put around it — for every token sequence, balanced or not. -/
+theorem c02_tables_lossless (ts : List MwVerif.Tables.Tok) :
+    MwVerif.Tables.leavesL (MwVerif.Tables.parse ts) = MwVerif.Tables.tokLeaves ts :=
+  MwVerif.Tables.parse_leaves ts
+
+/-- `x {| y {| z |} |} |} {| w`: nesting, a stray end marker, a table closed by the end of the input. -/
+example : MwVerif.Tables.parse [.other 0, .topen, .other 1, .topen, .other 2, .tclose, .tclose, .tclose, .topen, .other 3]
+    = [.leaf 0, .table [.leaf 1, .table [.leaf 2]], .looseClose, .table [.leaf 3]] := by rfl
